@@ -502,9 +502,9 @@ def c11(i, sg, R, tier, what, vmax=0, cap=1800, core=False):
 
 
 for R in (2, 3, 7, 8, 10, 16, 32, 36, 100, 128, 255, 256):
-    c11(I(8, 1), 'u', R, 'quick', 'digits', core=(R in (2, 10, 16, 256)))
+    c11(I(8, 1), 'u', R, 'quick' if R not in (2, 3) else 'thorough', 'digits', core=(R in (10, 16, 256)), cap=1800 if R not in (2, 3) else 5400)
 for R in (2, 10, 16, 36):
-    c11(I(8, 1), 'u', R, 'quick', 'str')
+    c11(I(8, 1), 'u', R, 'quick' if R in (16, 36) else 'thorough', 'str', cap=1800 if R in (16, 36) else 5400)
 for R in (2, 10, 16, 256):
     c11(I(8, 1), 'u', R, 'quick' if R in (16, 256) else 'thorough', 'rt', cap=3600)
 for R in (10, 16):
@@ -522,7 +522,7 @@ for i, vmax in ((I(16, 1), 0), (I(32, 1), 65535), (I(64, 1), 65535)):
         c11(i, 'u', R, 'quick' if (R == 256 or (i.bits == 16 and R == 16)) else 'thorough', 'digits', vmax=vmax, cap=3600)
 for R in (2, 8, 10, 16, 32, 36, 255, 256):
     c11(I(8, 2), 'u', R, 'thorough', 'digits', cap=7200)
-for i, R, tier in ((I(8, 1), 10, 'quick'), (I(8, 1), 16, 'quick'), (I(8, 1), 2, 'thorough'), (I(8, 1), 36, 'thorough'), (I(8, 2), 10, 'thorough')):
+for i, R, tier in ((I(8, 1), 10, 'thorough'), (I(8, 1), 16, 'thorough'), (I(8, 1), 2, 'thorough'), (I(8, 1), 36, 'thorough'), (I(8, 2), 10, 'thorough')):
     maxd = math.ceil(i.bits / math.log2(R))
     add(H('C11', f"c11_str_neg_{i.tag}_r{R}", 'c11_str_neg', f"{maxd + 5}, {i.I}, {i.digit}, {i.n}, {R}, {maxd}", tier=tier, cap=3600, inst=i.label, core=False, mem_gb=16,
           funcs="BInt::to_str_radix for negative values ('-' + magnitude) + round trip", bound=f'all negative values, radix {R}'))
